@@ -224,8 +224,30 @@ func refChainOK(chain []*gtCert, at time.Time, host string, usages []gx509.ExtKe
 		if !refConstraintOK(g, host, k) {
 			return false, "name constraint"
 		}
-		if i > 0 && k.interEKU && !ekuAllows(g, req, k.allUsages) {
-			return false, "issuer eku"
+	}
+	if !hard && k.interEKU {
+		// the reading that honours EKU restrictions on issuers does so cumulatively (as crypto/x509 of that time does): some
+		// requested usage must be permitted by every certificate of the chain that carries an EKU extension
+		okAny := false
+		for _, r := range req {
+			if r == gx509.ExtKeyUsageAny {
+				okAny = true
+				break
+			}
+			all := true
+			for _, g := range chain {
+				if !ekuAllows(g, []gx509.ExtKeyUsage{r}, false) {
+					all = false
+					break
+				}
+			}
+			if all {
+				okAny = true
+				break
+			}
+		}
+		if !okAny {
+			return false, "eku (cumulative over the chain)"
 		}
 	}
 	if hard {
@@ -864,6 +886,59 @@ func runTopology(c *Ctx, ti int, r *mon.RNG) {
 		}
 		if ti == 3 && q == 0 {
 			rep.Sample(desc())
+		}
+		// what one verification established must not vouch for another certificate: right after a leaf was accepted on
+		// these (long-lived) pools, the same certificate with other signature bytes — same TBSCertificate, so the same name,
+		// key, serial and issuer — is verified on the same pools. Nobody signed it.
+		if got && first && at.Equal(base) && q%3 == 0 {
+			for _, variant := range []string{"last-signature-byte", "middle-signature-byte", "signature-of-another-certificate"} {
+				forged := append([]byte{}, leaf.cert.Raw...)
+				switch variant {
+				case "last-signature-byte":
+					forged[len(forged)-1] ^= 0x01
+				case "middle-signature-byte":
+					forged[len(forged)-20] ^= 0x80
+				default:
+					other := all[0].cert
+					if other == leaf.cert || len(other.Signature) == 0 {
+						continue
+					}
+					var outer struct {
+						TBS asn1.RawValue
+						Alg asn1.RawValue
+						Sig asn1.BitString
+					}
+					if _, e := asn1.Unmarshal(leaf.cert.Raw, &outer); e != nil {
+						continue
+					}
+					outer.Sig = asn1.BitString{Bytes: other.Signature, BitLength: 8 * len(other.Signature)}
+					b, e := asn1.Marshal(struct {
+						TBS asn1.RawValue
+						Alg asn1.RawValue
+						Sig asn1.BitString
+					}{asn1.RawValue{FullBytes: outer.TBS.FullBytes}, asn1.RawValue{FullBytes: outer.Alg.FullBytes}, outer.Sig})
+					if e != nil {
+						continue
+					}
+					forged = b
+				}
+				fc, perr := gx509.ParseCertificate(forged)
+				if perr != nil {
+					continue
+				}
+				var fch [][]*gx509.Certificate
+				var ferr error
+				if pi := mon.Guard(func() {
+					fch, ferr = fc.Verify(gx509.VerifyOptions{DNSName: host, Intermediates: inters, Roots: roots, CurrentTime: at, KeyUsages: usages})
+				}); pi != nil {
+					rep.Violation("C10/Verify/panic/"+pi.Func, pi.Value, desc())
+				} else if ferr == nil && len(fch) > 0 && !leaf.inRoots {
+					d := desc()
+					d["forged"] = mon.Hex(forged)
+					rep.Violation("C10/Verify/false-accept/same-TBS-other-signature-after-the-genuine-one-was-verified/"+variant, "a certificate nobody signed was accepted on the pools that had just verified the genuine one", d)
+				}
+				rep.Eval("forged-signature-after-genuine/" + variant)
+			}
 		}
 	}
 }
